@@ -145,3 +145,47 @@ func c05DefaultBackend(b *Batch, idx int) {
 			map[string]interface{}{"keys": n, "first_builds": builds})
 	}
 }
+
+// c04RearmWindow: "able to build again when builders fail", under sustained demand. A key fails once; it is then requested
+// every couple of milliseconds. Rejections inside FailedUpdateTTL are fine, but a Get issued later than 2*FailedUpdateTTL
+// after the failure (jitter is +-5%) must invoke the builder again - the remembered failure is not prolonged by the
+// requests it rejects. Load can only delay the Gets, never make the verdict wrong.
+func c04RearmWindow(b *Batch, idx int) {
+	rng := rand.New(rand.NewSource(b.CaseSeed(idx)))
+	api := []string{"Failover", "FailoverOf"}[rng.Intn(2)]
+	fut := time.Duration(20+rng.Intn(40)) * time.Millisecond
+	var cycles int64
+	fc := cache.FailoverConfig{Name: "rearm", FailedUpdateTTL: fut, SyncRead: rng.Intn(2) == 0, FailHard: rng.Intn(2) == 0}
+	d := newDefaultFailover(api, fc, &cycles)
+	builds := 0
+	failT := time.Time{}
+	_, err := d.get(bg, "k", func() (string, error) { builds++; failT = time.Now(); return "", errors.New("source down") })
+	b.R.Eval()
+	if err == nil || builds != 1 {
+		b.R.Violate(b, idx, "C04:"+api+":rearm:first-failure", fmt.Sprintf("first Get returned err=%v builds=%d", err, builds), nil)
+		return
+	}
+	rejected := 0
+	gap := time.Duration(1+rng.Intn(4)) * time.Millisecond
+	for {
+		time.Sleep(gap)
+		issued := time.Now()
+		before := builds
+		v, err := d.get(bg, "k", func() (string, error) { builds++; return "recovered", nil })
+		if builds > before {
+			if err != nil || v != "recovered" {
+				b.R.Violate(b, idx, "C04:"+api+":rearm:rebuild-result", fmt.Sprintf("rebuilding Get returned (%q,%v)", v, err), nil)
+			}
+			break
+		}
+		rejected++
+		if issued.Sub(failT) > 2*fut {
+			b.R.Violate(b, idx, "C04:"+api+":rearm:never-builds-again", fmt.Sprintf("%s FailedUpdateTTL=%v: the key failed once and was requested every %v; a Get issued %v after the failure (%d rejected Gets before it) still returned (%q,%v) without invoking the builder", api, fut, gap, issued.Sub(failT), rejected, v, err),
+				map[string]interface{}{"fut": fut.String(), "gap": gap.String(), "rejected": rejected})
+			break
+		}
+	}
+	b.R.Count("rearm.cases", 1)
+	b.R.Count("rearm.rejected_gets", int64(rejected))
+	b.R.Nontrivial(fmt.Sprintf("rearm/%s/fut=%v/gap=%v", api, fut/(20*time.Millisecond)*20*time.Millisecond, gap))
+}
